@@ -8,7 +8,35 @@ import (
 	"strconv"
 )
 
+// H_getregexp (C16): the lookup used by matches()/replace() and by Compile's
+// constant-pattern check, over a sequence of requests from the initial state:
+// every request returns the compilation of exactly the requested pattern, or an
+// error iff that pattern does not compile - whatever was requested before.
+func H_getregexp() {
+	pats := []string{"a", "b", "(", "a(", "(a)", "[", "a|b"}
+	RegexpCache = defaultRegexpCache()
+	n := vParamInt("calls")
+	for i := 0; i < n; i++ {
+		p := pats[vConc(vInt("p"+strconv.Itoa(i), 0, len(pats)-1))]
+		_, cerr := regexp.Compile(p)
+		var re *regexp.Regexp
+		var err error
+		cls := vGuard(func() { re, err = getRegexp(p) })
+		vAssert(cls == 0, "no-panic")
+		if cls != 0 {
+			return
+		}
+		vFlag("nontrivial")
+		vAssert((err != nil) == (cerr != nil), "error-iff-pattern-does-not-compile")
+		vAssert((re == nil) == (err != nil), "exactly-one-of-regexp-error")
+		if re != nil && cerr == nil {
+			vAssert(re.String() == p, "compilation-of-the-requested-pattern")
+		}
+	}
+}
+
 func init() {
+	vHarnesses["H_getregexp"] = H_getregexp
 	vHarnesses["H_cache"] = H_cache
 	vHarnesses["H_regex"] = H_regex
 }
